@@ -122,6 +122,16 @@ def effective_priority_rule (ctx, repo, clause):
              "for %s: is_wildcarded=%s, is_exact=%s - an entry that still wildcards part of an address counts as exact, gets the 'infinite' effective priority and outranks higher-priority wildcarded entries"
              % bad_[0], m_.methods.get('is_exact') or m_, clause)
 
+  # a copy of a match carries the wildcard word: the prefix lengths of nw_src / nw_dst live nowhere else (the field accessors hand
+  # back the address only), so a copy assembled from the public fields alone turns every /1../31 prefix into a /32
+  cl_ = m_.methods.get('clone')
+  if cl_ is not None:
+    ctx.analysed(cl_)
+    reads_w = any(isinstance(x_, ast.Attribute) and x_.attr in ('wildcards', '_wildcards') and norm(x_.value) == 'self' and isinstance(x_.ctx, ast.Load) for x_ in ast.walk(cl_.node)) \
+              or any(isinstance(x_, ast.Call) and call_name(x_) in ('get_nw_src', 'get_nw_dst', 'pack', 'deepcopy', 'copy') for x_ in ast.walk(cl_.node))
+    ctx.ob('R-AGREE', cl_, "a cloned match keeps the wildcard word (IP prefix lengths)", reads_w, "self.wildcards is copied" if reads_w else
+           "clone() builds the copy without reading self.wildcards (nor get_nw_src/get_nw_dst): the prefix lengths are lost - an entry stored from a cloned match with nw_src 10.0.0.0/8 only matches 10.0.0.0 itself", cl_, clause)
+
 def run (ctx):
   ctx.explanation = EXPLAIN
   ctx.assumptions = ["ofp_match exposes fields through __getattr__ (None when wildcarded)"]
